@@ -44,6 +44,46 @@ def run_graph(x, optimize):
     return y
 
 
+def phase_fixpoints(raw, opt):
+    """Each phase must be idempotent on its own output: simplify on the simplified tree, lowering
+    on the lowered tree, fusion on the fused tree. Returns (mechanism, detail) or None."""
+    with R.REC.suspend():
+        s1 = raw.simplify()
+        s2 = s1.simplify()
+        if s2._name != s1._name:
+            return "not_idempotent:simplify_phase_not_a_fixpoint", f"simplify(simplify(e)) is {s2._name}, simplify(e) is {s1._name}"
+        l1 = s1.lower_completely()
+        l2 = l1.lower_completely()
+        if l2._name != l1._name:
+            return "not_idempotent:lower_phase_not_a_fixpoint", f"lowering the lowered tree {l1._name} gives {l2._name}"
+        f1 = l1.fuse()
+        f2 = f1.fuse()
+        if f2._name != f1._name:
+            return "not_idempotent:fuse_phase_not_a_fixpoint", f"fuse(fuse(e)) is {f2._name}, fuse(e) is {f1._name}"
+        if opt is not None and f1._name != opt._name:
+            return "not_idempotent:optimize_not_deterministic", f"simplify+lower+fuse gives {f1._name}, optimize() gave {opt._name}"
+    return None
+
+
+def classify_reoptimization(again, recs2):
+    """A second optimize() call renamed the tree although every phase is a fixpoint of itself
+    (phase_fixpoints), so the change comes from the composition: the second call simplifies the
+    *lowered* tree (nodes lowering introduced or un-shared). It is only that mechanism when the
+    second call fired simplify-phase rewrites and a third call is stable."""
+    with R.REC.suspend():
+        try:
+            third = again.optimize()
+        except Exception as e:
+            return f"not_idempotent:third_pass_raises:{type(e).__name__}:{exc_site(e)}"
+    if third._name != again._name:
+        return "not_idempotent:third_pass_still_changes"
+    if not recs2:
+        return "not_idempotent:no_rewrite_fired(fusion_differs)"
+    if "simplify" not in {r.phase for r in recs2}:
+        return "not_idempotent:second_pass_lowers_only"
+    return "not_idempotent:simplify_after_lower"
+
+
 def check_program(g, v, ctx):
     problems = []
     x = v.da
@@ -76,14 +116,23 @@ def check_program(g, v, ctx):
             recs2 = R.REC.records
             if again._name != opt._name:
                 sites = sorted({r.site.replace(" ", "") for r in recs2})
-                what = "+".join(sites) if sites else "no_rewrite_fired(fusion_differs)"
-                problems.append(("not_idempotent", f"optimize(optimize(e)) is {type(again).__name__} {again._name}, optimize(e) is {type(opt).__name__} {opt._name}; second pass fired {sites}", f"not_idempotent:{what}"))
+                mech = classify_reoptimization(again, recs2)
+                problems.append(("not_idempotent", f"optimize(optimize(e)) is {type(again).__name__} {again._name}, optimize(e) is {type(opt).__name__} {opt._name}; second pass fired {sites}", mech))
         except R.StepCapExceeded as e:
             R.REC.stop()
             problems.append(("nonterminating", f"re-optimizing an optimized expression: {e.tail}", "nonterminating:reoptimize"))
         except Exception as e:
             R.REC.stop()
             ctx.tab("reoptimize_raised", f"{type(e).__name__}:{exc_site(e)}")
+    if opt is not None:
+        try:
+            pf = phase_fixpoints(x.expr, opt)
+            ctx.count("phase_fixpoint_checks")
+            if pf is not None:
+                problems = [p for p in problems if p[0] != "not_idempotent"]
+                problems.append(("not_idempotent", pf[1], pf[0]))
+        except Exception as e:
+            ctx.tab("phase_fixpoint_raised", f"{type(e).__name__}:{exc_site(e)}")
     # raise differential through the real materialization path
     raw_exc = opt_exc = None
     try:
